@@ -80,6 +80,14 @@ M=[
         const size_t id     = std::distance(std::begin(vlist), bestMatch);""",
   """        const size_t action = bestMatch->action;
         const size_t id     = vlist.size() - 1;"""),
+ ('P1 harmless in effect: PBVI::crossSum no longer drops dominated entries (the final per-belief selection returns the same lists; check passes)',
+  'include/AIToolbox/POMDP/Algorithms/PBVI.hpp',
+  "result.erase(extractDominated(rbegin, rend, unwrap), rend);",
+  "(void)rbegin; (void)rend;"),
+ ('P2 correspondence only: findBestAtPoint breaks ties towards the lexicographically smaller vector (property still holds: V3 "no-failing-input-found", PBVI run differs from pbviRun)',
+  'include/AIToolbox/Utils/Polytope.hpp',
+  "if ( currValue > bestValue || ( currValue == bestValue && veccmp(std::invoke(p, *begin), std::invoke(p, *bestMatch)) > 0 ) ) {\n                bestMatch = begin;\n                bestValue = currValue;\n            }\n        }\n        if ( value ) *value = bestValue;\n        return bestMatch;\n    }\n\n    /**\n     * @brief This function returns an iterator pointing to the best Hyperplane for the specified corner",
+  "if ( currValue > bestValue || ( currValue == bestValue && veccmp(std::invoke(p, *begin), std::invoke(p, *bestMatch)) < 0 ) ) {\n                bestMatch = begin;\n                bestValue = currValue;\n            }\n        }\n        if ( value ) *value = bestValue;\n        return bestMatch;\n    }\n\n    /**\n     * @brief This function returns an iterator pointing to the best Hyperplane for the specified corner"),
  ('H1 harmless: PBVI builds the per-action lists in reverse belief order',
   'include/AIToolbox/POMDP/Algorithms/PBVI.hpp',
   """        for ( const auto & b : bl )
